@@ -247,6 +247,11 @@ int run_canaries(const std::string &prop) {
   int failed = 0, total = 0;
   auto expect_cls = [&](const char *name, const Plan &p, const char *cls) {
     RunResult r = run_plan(p, RunOptions());
+    // a canary whose sin needs a particular OS call (mremap) is not applicable to a tree that never makes that call
+    if (std::string(name) == "stale_mremap_address" && r.st.growths == 0) {
+      fprintf(real_out(), "CANARY-SKIPPED %s: the library did not call mremap\n", name);
+      return;
+    }
     total++;
     bool ok = r.v.violated && r.v.cls == cls;
     if (!ok) {
